@@ -17,11 +17,16 @@ def disjLeaves : Term → List Term
   | .node .or as _ => (as.reverse.map disjLeaves).flatten
   | t => [t]
 
+/-- first occurrences only (the `seen` set) -/
+def dedup : List Term → List Term
+  | [] => []
+  | x :: xs => x :: (dedup xs).filter (fun y => y != x)
+
 /-- `list(conjunctive_partition(t))` -/
-def conjPartition (t : Term) : List Term := (conjLeaves t).eraseDups
+def conjPartition (t : Term) : List Term := dedup (conjLeaves t)
 
 /-- `list(disjunctive_partition(t))` -/
-def disjPartition (t : Term) : List Term := (disjLeaves t).eraseDups
+def disjPartition (t : Term) : List Term := dedup (disjLeaves t)
 
 def isAnd : Term → Bool | .node .and _ _ => true | _ => false
 def isOr : Term → Bool | .node .or _ _ => true | _ => false
